@@ -300,6 +300,11 @@ def run(chk: core.Check):
             chk.disagree("exit code after a main-thread fault (real CLI vs Model_C05.cli_exit_code)", cfg, code, m)
     chk.stages["cli_abort"] = {"runs": len(abort_obs)}
 
+    # ---- (c'') the stateful phase: real execute_state_machine_loop + real consumer fold under a scripted Hypothesis vs ModelP_C11
+    from harness.props import stateful_producer as SP
+
+    chk.stages["stateful_producer"] = SP.stage(chk, (80 if quick else 2000) * (3 if chk.broken else 1))
+
     # ---- (d) free runs: which checks fail / raise, unique inputs, stateful phase
     chk.stages["free_runs"] = free_runs(chk, (10 if quick else 100) * (5 if chk.broken else 1))
 
